@@ -193,28 +193,59 @@ void h_ht_closer_fx(void)
 	VERIF_COVER(r == 0xffffffff, "no candidate");
 }
 
+/* h_ht_closer uses the direct-hash formulation of the Inv instances (one application of the uninterpreted hash per
+ * instance): for this harness it is measured smaller and faster than the per-slot home table the put units need */
+static inline _Bool wa0(const struct ht_table *t, uint32_t h, uint32_t d, uint32_t hole)   /* Inv-A at (h,d) with a hole */
+{
+	if (!((t->s[h].hop_info >> d) & 1u)) return 1;
+	uint32_t s = HT_WRAP(h + d);
+	return live_h(t, s, hole) && HT_H(t->s[s].key) == h;
+}
+static inline _Bool wb0(const struct ht_table *t, uint32_t p, uint32_t hole)               /* Inv-B at p with a hole */
+{
+	if (!live_h(t, p, hole)) return 1;
+	uint32_t h = HT_H(t->s[p].key), d = HT_WRAP(p - h);
+	return d < 32 && ((t->s[h].hop_info >> d) & 1u);
+}
+static inline _Bool window_a0(const struct ht_table *t, uint32_t f)
+{
+	/* homes f-62..f-1: every home that can reference a slot of f-31..f */
+	for (uint32_t b = 1; b < 63; b++) for (uint32_t d = 0; d < 32; d++) if (!wa0(t, HT_WRAP(f - b), d, f)) return 0;
+	return 1;
+}
+static inline _Bool movable_exists0(const struct ht_table *t, uint32_t f)
+{
+	for (uint32_t d = 1; d < 32; d++) { uint32_t hop = SLOT(t, f - d).hop_info; for (uint32_t i = 0; i < d; i++) if ((hop >> i) & 1u) return 1; }
+	return 0;
+}
 void h_ht_closer(void)
 {
 	struct ht_table T, T0;
 	const uint32_t f = HT_F;
 	uint32_t gh = nondet_u32(), gd = nondet_u32(), gp = nondet_u32(), gq = nondet_u32();
 	__CPROVER_assume(gh < HT_N && gd < 32 && gp < HT_N && gq < HT_N);
-	/* the hash is applied directly here (home == NULL): measured faster and smaller for this harness than the per-slot table */
-	const uint32_t *const home0 = NULL;
-	__CPROVER_assume(hole_unreferenced(&T, f) && window_a(&T, home0, f));
-	__CPROVER_assume(wa(&T, home0, gh, gd, f) && wb(&T, home0, gp, f) && wb(&T, home0, gq, f) && wc(&T, gp, gq, f) && wc(&T, gq, gp, f));
+#ifdef HT_WINDOW_WIDE
+	/* obligations 4 and 7 need the wider set of Inv instances: A for the homes f-62..f-1, C between the window and the ghosts */
+	__CPROVER_assume(hole_unreferenced(&T, f) && window_a0(&T, f));
 	__CPROVER_assume(window_c(&T, f, gp) && window_c(&T, f, gq));
+#else
+	/* the other obligations are discharged from fewer instances (a weaker precondition, hence a stronger statement): A for the
+	 * homes f-31..f-1 only - half the applications of the uninterpreted hash, a quarter of the formula */
+	__CPROVER_assume(hole_unreferenced(&T, f));
+	for (uint32_t b = 1; b < 32; b++) for (uint32_t d = 0; d < 32; d++) __CPROVER_assume(wa0(&T, HT_WRAP(f - b), d, f));
+#endif
+	__CPROVER_assume(wa0(&T, gh, gd, f) && wb0(&T, gp, f) && wb0(&T, gq, f) && wc(&T, gp, gq, f) && wc(&T, gq, gp, f));
 	T0 = T;
 	uint32_t r = find_closer_entry_VT(T.s, f);
 	if (r == 0xffffffff) {
 		HT_ASSERT(1, T.s[gp].key == T0.s[gp].key && T.s[gp].value.vals[0] == T0.s[gp].value.vals[0] && T.s[gp].hop_info == T0.s[gp].hop_info, "C17.closer.no-candidate-changes-nothing");
-		HT_ASSERT(2, !movable_exists(&T0, f), "C17.closer.gives-up-only-when-no-entry-can-move");
+		HT_ASSERT(2, !movable_exists0(&T0, f), "C17.closer.gives-up-only-when-no-entry-can-move");
 	} else {
 		HT_ASSERT(3, r < HT_N && HT_WRAP(f - r) >= 1 && HT_WRAP(f - r) <= 31, "C17.closer.hole-moves-closer-to-the-home");
 		if (r < HT_N) {
 			HT_ASSERT(4, hole_unreferenced(&T, r), "C17.closer.new-hole-is-unreferenced");
-			HT_ASSERT(5, wa(&T, NULL, gh, gd, r), "C17.closer.inv-A-preserved-at-an-arbitrary-bit");
-			HT_ASSERT(6, wb(&T, NULL, gp, r), "C17.closer.inv-B-preserved-at-an-arbitrary-slot");
+			HT_ASSERT(5, wa0(&T, gh, gd, r), "C17.closer.inv-A-preserved-at-an-arbitrary-bit");
+			HT_ASSERT(6, wb0(&T, gp, r), "C17.closer.inv-B-preserved-at-an-arbitrary-slot");
 			HT_ASSERT(7, wc(&T, gp, gq, r), "C17.closer.inv-C-preserved-at-an-arbitrary-pair");
 			/* view: the entry that lived in ghost slot gp is still stored with its value - in gp, or in f if gp was moved */
 			if (live_h(&T0, gp, f)) {
